@@ -542,3 +542,19 @@ def gen_gate(rng):
     if k in ("IdentityGate", "RotationGate"):
         return obj(k, rng.choice([0, 1, 5, -1, 10**20]))
     return obj(k, rng.randint(0, 5), rng.randint(0, 5))
+
+
+def gen_result_odd_aux(rng):
+    """a solver result whose aux_operators_evaluated is outside the documented type (correspondence only)"""
+    r = gen_solver_result(rng)
+    k = rng.choice(["quasi", "quasi", "tuple", "nested", "tuple-of-pairs"])
+    if k == "quasi":
+        aux = gen_quasi(rng)
+    elif k == "tuple":
+        aux = tup([gen_number(rng) for _ in range(rng.randint(0, 2))])
+    elif k == "nested":
+        aux = [[gen_number(rng), gen_number(rng)], [], [None]]
+    else:
+        aux = [tup([gen_number(rng), {"d": [["variance", 0.5]]}])]  # qiskit_algorithms' (value, metadata) pairs
+    r["a"][1] = aux
+    return r
